@@ -35,14 +35,16 @@ def callSoon (l : Loop Cb) (cb : Cb) : Loop Cb := { l with ready := l.ready ++ [
 def callLater (l : Loop Cb) (delay : Nat) (cb : Cb) : Loop Cb × Nat :=
   ({ l with timers := l.timers ++ [⟨l.nextSeq, l.now + delay, cb⟩], nextSeq := l.nextSeq + 1 }, l.nextSeq)
 
-/-- `handle.cancel()` for a timer handle, pending or already moved to the ready queue -/
-def cancel (l : Loop Cb) (seq : Nat) : Loop Cb :=
-  { l with timers := l.timers.filter (fun t => decide (t.seq ≠ seq)),
-           ready := l.ready.filter (fun r => decide (r.seq ≠ some seq)) }
+/-- `handle.cancel()` for a timer handle, pending or already moved to the ready queue.  A handle is
+identified by its sequence number; `own` says which kind of callback the caller's handle carries
+(asyncio cancels by object identity: a component can only ever cancel its own handles). -/
+def cancel (l : Loop Cb) (own : Cb → Bool) (seq : Nat) : Loop Cb :=
+  { l with timers := l.timers.filter (fun t => !(decide (t.seq = seq) && own t.cb)),
+           ready := l.ready.filter (fun r => !(decide (r.seq = some seq) && own r.cb)) }
 
-def cancelOpt (l : Loop Cb) : Option Nat → Loop Cb
+def cancelOpt (l : Loop Cb) (own : Cb → Bool) : Option Nat → Loop Cb
   | none => l
-  | some s => l.cancel s
+  | some s => l.cancel own s
 
 /-- is some timer due? -/
 def anyDue (l : Loop Cb) : Bool := l.timers.any (fun t => decide (t.deadline ≤ l.now))
